@@ -70,7 +70,9 @@ Fixpoint irc_loop (fuel : nat) (s enc : bytes) (i fails : Z) : res Z :=
               (* n = 2: s[i:], otherwise s[i-(n-1):] ("we might be in the middle of a rune") *)
               let from := if n =? 2 then i2 else i2 - (n - 1) in
               do t2 <- slice_from s from;
-              let j := std_index t2 enc in
+              (* bytealg.IndexString(s[from:], string(r)): the runtime's native Index again; a code point's
+                 encoding has 2..4 bytes and the runtime guarantees MaxLen >= 4 wherever it is not 0 *)
+              do j <- native_index 4 t2 enc;
               if j =? -1 then Ok (-1) else Ok (from + j)
             else irc_fallback (S (length s)) s enc i2
           else irc_loop f s enc i2 fails'
